@@ -29,9 +29,9 @@ def _dt_kwargs(p, dt):
     class default and is told the period on every call; the batch constructor, which has no per-call route, gets Dt)."""
     if p.get('dt_route', 'Dt') == 'frequency':
         return {'frequency': 1.0 / dt}
-    if p.get('dt_route') == 'call' and p.get('_dataless'):
-        return {}
-    return {'Dt': dt}
+    if p.get('dt_route') in ('call', 'attr') and p.get('_dataless'):
+        return {}           # 'attr': the data-less instance is created with the class default and its documented attribute
+    return {'Dt': dt}       # Dt is assigned afterwards (see _attr_route); calls then pass no dt
 
 
 def call_dt(p, dt):
@@ -615,6 +615,20 @@ KINDS = {k.name: k() for k in (
     ComplementaryMARG, OLEQk, FLAEk, TiltK, TiltAcc, SAAMk, FAMCk, FQAk, QUESTk,
     DavenportK, TRIADk, AQUAAlg)}
 
+def _attr_route(kind):
+    orig = kind.make
+
+    def make(p, dt, dip):
+        inst = orig(p, dt, dip)
+        if p.get('dt_route') == 'attr' and hasattr(inst, 'Dt'):
+            inst.Dt = float(dt)
+        return inst
+    kind.make = make
+
+
+for _k in KINDS.values():
+    _attr_route(_k)
+
 RECURSIVE_STREAMING = [k for k, v in KINDS.items() if v.recursive and v.streaming]
 RECURSIVE_BATCH_ONLY = [k for k, v in KINDS.items() if v.recursive and not v.streaming]
 SINGLE_FRAME = [k for k, v in KINDS.items() if not v.recursive]
@@ -624,7 +638,7 @@ SINGLE_FRAME = [k for k, v in KINDS.items() if not v.recursive]
 # seeded parameter generation (swarm style: every run gets its own knobs)
 # ---------------------------------------------------------------------------
 def gen_params(rnd, kind, *, with_q0=True, defaults_prob=0.3):
-    p = {'dt_route': rnd.choice(['Dt', 'Dt', 'frequency', 'call']), 'dt_call': rnd.random() < 0.3}
+    p = {'dt_route': rnd.choice(['Dt', 'Dt', 'frequency', 'call', 'attr']), 'dt_call': rnd.random() < 0.3}
     default = rnd.random() < defaults_prob
     k = KINDS[kind]
     if kind.startswith('madgwick'):
